@@ -65,6 +65,9 @@ func runProgCase(c *fw.Ctx, idx int, sp *progSpec) {
 			return
 		}
 	}
+	if sharedSetEntries(c, r, p, sp.extra, strings.ToLower(sp.id)) {
+		return
+	}
 	if sp.post != nil {
 		sp.post(c, p, m, o)
 	}
@@ -74,6 +77,38 @@ func runProgCase(c *fw.Ctx, idx int, sp *progSpec) {
 	if idx%997 == 3 {
 		c.Sample(map[string]interface{}{"files": progSources(p), "output": o.Out, "features": feats})
 	}
+}
+
+// sharedSetEntries executes several files of the program as entry points, one after the other on ONE Set (so that every
+// template is parsed once and shared by all later executions), and compares each execution with the model evaluated for
+// that entry alone: what an execution renders does not depend on what was loaded or executed before on the Set.
+func sharedSetEntries(c *fw.Ctx, r interface{ Intn(int) int }, p *prog.Program, extra map[string]interface{}, sig string) bool {
+	if len(p.Files) < 2 {
+		return false
+	}
+	set := p.NewSet(p.Newline, jx.NoEscape)
+	var hist []string
+	for step, n := 0, 2+r.Intn(4); step < n; step++ {
+		q := *p
+		q.Main = p.Files[r.Intn(len(p.Files))].Path
+		if r.Intn(3) == 0 {
+			q.Main = p.Main
+		}
+		m := prog.Eval(&q)
+		if m.Unspecified != "" {
+			c.Count("shared_set_discarded_unspecified", 1)
+			continue
+		}
+		hist = append(hist, q.Main)
+		o := q.Run(prog.RunOpts{Set: set, ExtraVars: extra})
+		c.Eval(1)
+		c.Count("shared_set_entry_executions", 1)
+		if class, detail := prog.Compare(m, o, p.Newline); class != "" {
+			c.Violation(sig+":shared-set:"+class, "", map[string]interface{}{"entries_executed_on_one_set": hist, "mismatch": class, "detail": detail, "model_error": fmt.Sprint(m.Err), "real_error": fmt.Sprint(o.Err)})
+			return true
+		}
+	}
+	return false
 }
 
 // progShape names the most specific constructs involved, to group violation signatures.
